@@ -62,6 +62,16 @@ example : Output.outInv (toBlob exTree { chunkSize := 2, nProc := 2 } none none 
     (C01.no_error_plain exTree { chunkSize := 2, nProc := 2 } (exVoteP 1) [7, 3, 9] [0, 1, 2] [1, 0]
       rfl rfl exTree_wf (exVoteP_ok _ _) rfl (by decide) (by decide) (by decide) (by decide))
 
+/-- the hypothesis `hasChoice` is necessary: on a single-leaf taxonomy (no
+parent with two children anywhere) the pipeline succeeds, every
+`avg_correlation` is `null`, and the blob does NOT satisfy `outInv` — this is
+the known finding `…/null-becomes-nan/single-leaf-taxonomy` -/
+example : hasChoice { hierarchy := [0], levels := [(0, [(10, [4])])] } = false ∧
+    (mapPipeline { hierarchy := [0], levels := [(0, [(10, [4])])] } {} (exVoteP 1) [7] [0] [0]).toOption.map
+      (fun out => Output.outInv
+        (toBlob { hierarchy := [0], levels := [(0, [(10, [4])])] } {} none none 1 out)) =
+      some false := by decide
+
 /-- *"Writing the result to HDF5 and reading it back reproduces every cell id,
 assignment, probability, correlation, runner-up list and directly-assigned
 flag of the JSON output"* — for the output of the mapping loop itself: the
